@@ -449,3 +449,61 @@ def apply(repo):
         m._index(new, qual + ".")
         n += 1
     return n
+
+
+# ------------------------------------------------------------------------------------------------
+def expand_module_aliases(repo):
+    """`xp = D.ar_numpy` at the top of a function is a spelling, not a computation: a local bound exactly once (anywhere in the function, never a parameter,
+    never rebound, not global/nonlocal) to a dotted path whose root is a module-level import alias is replaced by that path wherever it is read, nested
+    closures included.  Returns the number of functions rewritten (0 on a tree without such aliases)."""
+    n = 0
+    for rel, m in repo.modules.items():
+        roots = set(m.aliases)
+        for q, fn in list(m.index.items()):
+            if not isinstance(fn, ast.FunctionDef):
+                continue
+            params = {a.arg for a in fn.args.posonlyargs + fn.args.args + fn.args.kwonlyargs}
+            if fn.args.vararg:
+                params.add(fn.args.vararg.arg)
+            if fn.args.kwarg:
+                params.add(fn.args.kwarg.arg)
+            stores = {}
+            for x in _walk_same_function(fn):
+                if isinstance(x, ast.Name) and isinstance(x.ctx, (ast.Store, ast.Del)):
+                    stores.setdefault(x.id, []).append(x)
+            cands = {}
+            for st in _walk_same_function(fn):
+                if isinstance(st, ast.Assign) and len(st.targets) == 1 and isinstance(st.targets[0], ast.Name) and isinstance(st.value, ast.Attribute):
+                    nm = st.targets[0].id
+                    d = dotted(st.value)
+                    if d and d.split(".")[0] in roots and d.split(".")[0] not in stores and nm not in params and len(stores.get(nm, [])) == 1 \
+                            and isinstance(getattr(st, "_parent", None), ast.FunctionDef) and st._parent is fn:
+                        cands[nm] = (st, st.value)
+            if not cands:
+                continue
+            # a nested function that rebinds the name shadows it: skip such names
+            for sub in ast.walk(fn):
+                if isinstance(sub, (ast.FunctionDef, ast.Lambda)) and sub is not fn:
+                    for x in ast.walk(sub):
+                        if isinstance(x, ast.Name) and isinstance(x.ctx, ast.Store) and x.id in cands:
+                            cands.pop(x.id, None)
+                        if isinstance(x, ast.arg) and x.arg in cands:
+                            cands.pop(x.arg, None)
+            if not cands:
+                continue
+
+            class T(ast.NodeTransformer):
+                def visit_Name(self, node):
+                    if isinstance(node.ctx, ast.Load) and node.id in cands:
+                        new = _clone(cands[node.id][1])
+                        ast.copy_location(new, node)
+                        for sub in ast.walk(new):
+                            ast.copy_location(sub, node)
+                        return new
+                    return node
+            defs = {id(v[0]) for v in cands.values()}
+            for field in ("body",):
+                fn.body = [T().visit(st) for st in fn.body if id(st) not in defs] or [ast.copy_location(ast.Pass(), fn)]
+            _annotate(fn, fn._parent)
+            n += 1
+    return n
